@@ -119,7 +119,7 @@ Core == {"ann", "annval", "fkwT", "fkwFd", "finitF", "classvarN", "initvar", "pr
 Chain == <<{0}, {1}, {2}>>
 \* loads: how many times the finished module is loaded with the same extension instance (a history of loads)
 DB(nc, nf, forms, hdrs, names, bases) == [mode |-> "enum", nc |-> nc, nf |-> nf, forms |-> forms, hdrs |-> hdrs, names |-> names, bases |-> bases, loads |-> 1,
-                                          outers |-> {"none"}, splits |-> {0}]
+                                          outers |-> {"none"}, splits |-> {0}, links |-> {"import"}]
 DL(d, n) == [d EXCEPT !.loads = n]
 \* outers: the classes of the program are written at module level ("none") or nested in the body of an outer class that
 \*         has no __init__ ("plain") or a hand-written one ("hand"); _apply_recursively has to descend into it
@@ -127,6 +127,10 @@ DL(d, n) == [d EXCEPT !.loads = n]
 \*         them; the first package is loaded (and its on_package_loaded event handled) before the second one is
 DO(d, o) == [d EXCEPT !.outers = o]
 DS(d, sp) == [d EXCEPT !.splits = sp]
+\* links: how the second module reaches the classes of the first one: "import" = two packages, `from <A> import K1, ...`,
+\*        loaded one after the other; "wildcard" = two submodules a, b of ONE package, b does `from <pkg>.a import *`
+\*        (an in-package wildcard import: GriffeLoader._post_load expands it before it fires on_package_loaded)
+DK(d, lk) == [d EXCEPT !.links = lk]
 D(nc, nf, forms, hdrs, names) == DB(nc, nf, forms, hdrs, names, Chain)
 \* -- one class
 Dom_single2 == D(1, <<2, 0, 0>>, <<AllForms, {}, {}>>, <<HdrsSingle, {}, {}>>, <<N3, {}, {}>>)
@@ -171,9 +175,9 @@ Dom_reload_t == DL(Dom_pair_w, 3)
 Dom_nested_q == DO(D(2, <<1, 1, 0>>, <<{"ann", "annval", "fkwT", "initvar", "classvarN"}, {"ann", "annval", "fkwT", "initvar", "classvarN"}, {}>>,
                      <<ReloadHdrs, ReloadHdrs, {}>>, <<N3, {"a", "b"}, {}>>), {"plain", "hand"})
 SplitHdrs == {H(TRUE, "u", "u", FALSE), H(FALSE, "u", "u", FALSE)}
-Dom_split_q == DS(D(3, <<1, 1, 1>>, <<{"ann", "annval", "initvar"}, {"ann", "annval", "initvar"}, {"ann", "annval", "initvar"}>>,
-                    <<SplitHdrs, SplitHdrs, SplitHdrs>>, <<N3, {"a", "b"}, {"a", "b"}>>), {1, 2})
-Dom_split_t == DS(DL(Dom_pair_w, 2), {0, 1})
+Dom_split_q == DK(DS(D(3, <<1, 1, 1>>, <<{"ann", "annval", "initvar"}, {"ann", "annval", "initvar"}, {"ann", "annval", "initvar"}>>,
+                    <<SplitHdrs, SplitHdrs, SplitHdrs>>, <<N3, {"a", "b"}, {"a", "b"}>>), {1, 2}), {"import", "wildcard"})
+Dom_split_t == DK(DS(DL(Dom_pair_w, 2), {0, 1}), {"import", "wildcard"})
 Dom_tree_t == DB(3, <<1, 1, 1>>, <<TripleForms, TripleForms, TripleForms \cup {"kwonly"}>>,
                  <<TripleHdrs \cup {HA(TRUE, "u", "u")}, TripleHdrs, TripleHdrs>>, <<N3, {"a", "b"}, {"a", "b", "c"}>>, <<{0}, {1}, {1}>>)
 Dom_triple_t == D(3, <<1, 1, 1>>, <<TripleForms, TripleForms, TripleForms \cup {"kwonly"}>>,
@@ -183,7 +187,7 @@ Dom_triple_t == D(3, <<1, 1, 1>>, <<TripleForms, TripleForms, TripleForms \cup {
 \* counterexamples of witness runs, stored replay cases); TLC then only evaluates Impl and the reference on them.
 Dom_target  == [mode |-> "target", nc |-> 0, nf |-> <<0, 0, 0>>, forms |-> <<{}, {}, {}>>, hdrs |-> <<{}, {}, {}>>,
                 names |-> <<{}, {}, {}>>, bases |-> <<{}, {}, {}>>, loads |-> 2,
-                outers |-> {}, splits |-> {}]
+                outers |-> {}, splits |-> {}, links |-> {}]
 Targets == JsonDeserialize(IOEnv.C18_TARGETS)
 DomOf(d) == CASE d = "single2" -> Dom_single2 [] d = "single3q" -> Dom_single3q [] d = "single3" -> Dom_single3
               [] d = "single4" -> Dom_single4 [] d = "pair_w" -> Dom_pair_w [] d = "pair_q" -> Dom_pair_q
@@ -212,9 +216,11 @@ VARIABLES chain,     \* the source so far: Seq([hdr, base, fields: Seq([name, fo
           processed, \* Griffe: the `processed` set handed to _apply_recursively (0 = the module, i = class i)
           hist,      \* results of the earlier loads: Seq([impl, mem])
           outer,     \* "none" | "plain" | "hand": the outer class the program is nested in
-          split      \* 0, or the number of classes that live in the first of two packages (chosen at EndModule)
-vars == <<chain, open, pc, wf, py, members, glabels, cache, k, tid, tags, dom, load, processed, hist, outer, split>>
-layout == <<outer, split>>
+          split,     \* 0, or the number of classes that live in the first of two packages / submodules (chosen at EndModule)
+          link,      \* "import" | "wildcard": how the second module reaches the classes of the first (see DK)
+          expanded   \* Griffe: the in-package wildcard imports of the tree of the current load have been expanded
+vars == <<chain, open, pc, wf, py, members, glabels, cache, k, tid, tags, dom, load, processed, hist, outer, split, link, expanded>>
+layout == <<outer, split, link>>
 Dom == DomOf(dom)
 TargetMode == dom = "target"
 
@@ -382,8 +388,16 @@ ReorderParameters(ps) ==
   LET d == SelectSeq(Dedup(ps), LAMBDA p : p.kind # RM)       \* tombstones exist only with the "noninit" fix
   IN SelectSeq(d, LAMBDA p : p.kind = PK) \o SelectSeq(d, LAMBDA p : p.kind = KO)
 
+\* class_.mro() as Griffe can compute it: a base that is only reachable through a wildcard import which has not been
+\* expanded does not resolve - the walk stops there (never the case in the order _post_load uses)
+RECURSIVE GAncSeq(_, _)
+GAncSeq(ch, i) ==
+  IF ch[i].base = 0 THEN <<>>
+  ELSE IF link = "wildcard" /\ ~expanded /\ i > split /\ ch[i].base <= split THEN <<>>
+  ELSE GAncSeq(ch, ch[i].base) \o <<ch[i].base>>
+GAnc(ch, i) == {GAncSeq(ch, i)[x] : x \in 1..Len(GAncSeq(ch, i))}
 \* the calls _set_dataclass_init(class k) makes to the cached _dataclass_parameters
-CalledBy(ch, i) == {j \in Anc(ch, i) : Decorated(ch, j)} \cup (IF Decorated(ch, i) THEN {i} ELSE {})
+CalledBy(ch, i) == {j \in GAnc(ch, i) : Decorated(ch, j)} \cup (IF Decorated(ch, i) THEN {i} ELSE {})
 CachedParameters(ch, i) == IF cache[i].set THEN cache[i].val ELSE DataclassParameters(ch, members, i)
 
 RECURSIVE ConcatParams(_, _, _)
@@ -484,7 +498,7 @@ Init ==
   /\ tags = {}
   /\ load = 1 /\ processed = {} /\ hist = <<>>
   /\ outer \in (IF dom = "target" THEN {Targets[tid].outer} ELSE DomOf(dom).outers)
-  /\ split = 0
+  /\ split = 0 /\ link = "import" /\ expanded = FALSE
 
 T == Targets[tid].chain
 
@@ -499,7 +513,7 @@ DefClass ==        \* `@dataclass(...)` / `class Ci(Ci-1):`
           /\ t \subseteq Allow
           /\ chain' = ch /\ tags' = t
   /\ open' = TRUE
-  /\ UNCHANGED <<pc, wf, py, members, glabels, cache, k, tid, dom, load, processed, hist, layout>>
+  /\ UNCHANGED <<pc, wf, py, members, glabels, cache, k, tid, dom, load, processed, hist, layout, expanded>>
 
 \* the statements that may come next in the body of the open class
 Candidates(c) ==
@@ -525,7 +539,7 @@ DefField ==        \* one more statement in the body of the open class
                t == Tags(ch)
            IN /\ t \subseteq Allow
               /\ chain' = ch /\ tags' = t
-  /\ UNCHANGED <<open, pc, wf, py, members, glabels, cache, k, tid, dom, load, processed, hist, layout>>
+  /\ UNCHANGED <<open, pc, wf, py, members, glabels, cache, k, tid, dom, load, processed, hist, layout, expanded>>
 
 EndClass ==        \* the class statement ends: the visitor has its members, CPython runs the decorator
   /\ pc = "build" /\ open
@@ -539,7 +553,7 @@ EndClass ==        \* the class statement ends: the visitor has its members, CPy
         /\ glabels' = Append(glabels, IF c.hdr.dc THEN {"dataclass"} ELSE {})     \* decorators_to_labels
         /\ cache' = Append(cache, [set |-> FALSE, val |-> <<>>])
   /\ open' = FALSE
-  /\ UNCHANGED <<chain, pc, k, tid, tags, dom, load, processed, hist, layout>>
+  /\ UNCHANGED <<chain, pc, k, tid, tags, dom, load, processed, hist, layout, expanded>>
 
 \* DataclassesExtension.on_package_loaded: `_apply_recursively(pkg, set())` - a NEW set for every event; the module
 \* itself is the first path put into it (and no module path is in a new set, so the walk always starts)
@@ -555,9 +569,20 @@ EndModule ==       \* GriffeLoader._post_load -> extensions.call("on_package_loa
        /\ (sp > 0 => outer = "none")
        /\ (~TargetMode => sp < N)
        /\ split' = IF sp < N THEN sp ELSE 0       \* (a supplied program cut short by a TypeError is one package)
-  /\ pc' = "apply" /\ k' = FirstK
+       /\ \E lk \in (IF TargetMode THEN {Targets[tid].link} ELSE Dom.links) :
+            /\ link' = IF sp > 0 /\ sp < N THEN lk ELSE "import"
+            /\ pc' = IF sp > 0 /\ sp < N /\ lk = "wildcard" THEN "postload" ELSE "apply"
+  /\ k' = FirstK /\ expanded' = FALSE
   /\ processed' = FreshProcessed
   /\ UNCHANGED <<chain, open, wf, py, members, glabels, cache, tid, tags, dom, load, hist, outer>>
+
+\* GriffeLoader._post_load, one package with submodules: expand_exports(module); expand_wildcards(module, external=False)
+\* and only THEN extensions.call("on_package_loaded"): when the extension runs, a base class that entered its module
+\* through `from <pkg>.a import *` is an alias member of that module and resolves.
+ExpandWildcards ==
+  /\ pc = "postload"
+  /\ expanded' = TRUE /\ pc' = "apply"
+  /\ UNCHANGED <<chain, open, wf, py, members, glabels, cache, k, tid, tags, dom, load, processed, hist, layout>>
 
 \* _apply_recursively reaches class k
 ApplyRecursively ==
@@ -569,12 +594,12 @@ ApplyRecursively ==
      THEN UNCHANGED <<members, glabels, cache>>          \* guard: "__init__" not in mod_cls.members
      ELSE
        LET guarded == HasMember(members[k], "__init__")            \* only with the labelhand fix: label, nothing else
-           parents == {j \in Anc(chain, k) : Decorated(chain, j)}
+           parents == {j \in GAnc(chain, k) : Decorated(chain, j)}
            \* ---- _set_dataclass_init
            \* (the initF fix returns only after the class's own parameters were computed, hence cached:
            \*  _del_members_annotated_as_initvar is about to remove what a subclass will ask for)
            called == IF guarded THEN {} ELSE CalledBy(chain, k)
-           parameters == ConcatParams(chain, AncSeq(chain, k), 1)
+           parameters == ConcatParams(chain, GAncSeq(chain, k), 1)
                            \o (IF Decorated(chain, k) THEN CachedParameters(chain, k) ELSE <<>>)
            makeInit == /\ ~guarded /\ Decorated(chain, k)
                        /\ ~(chain[k].hdr.init = "F" /\ "initF" \in Fix)
@@ -588,8 +613,8 @@ ApplyRecursively ==
                                       ELSE cache[j]]
           /\ members' = [members EXCEPT ![k] = pruned]
   /\ k' = k + 1
-  /\ pc' = IF k = N THEN "done" ELSE IF k = split THEN "nextpkg" ELSE "apply"
-  /\ UNCHANGED <<chain, open, wf, py, tid, tags, dom, load, hist, layout>>
+  /\ pc' = IF k = N THEN "done" ELSE IF k = split /\ link = "import" THEN "nextpkg" ELSE "apply"
+  /\ UNCHANGED <<chain, open, wf, py, tid, tags, dom, load, hist, layout, expanded>>
 
 \* _apply_recursively reaches the outer class the program is nested in.  It is not a dataclass and has no dataclass
 \* ancestor: labelling and (behind the "__init__" guard) _set_dataclass_init / _del_members... change nothing.  Then
@@ -599,7 +624,7 @@ ApplyOuter ==
   /\ pc = "apply" /\ k = 0
   /\ processed' = processed \cup {OuterId}
   /\ k' = 1
-  /\ UNCHANGED <<chain, open, pc, wf, py, members, glabels, cache, tid, tags, dom, load, hist, layout>>
+  /\ UNCHANGED <<chain, open, pc, wf, py, members, glabels, cache, tid, tags, dom, load, hist, layout, expanded>>
 
 \* the first package is done; the loader now loads the second one (its classes derive from classes of the first, which
 \* stay in the modules collection) and fires on_package_loaded for it: a fresh `processed`, but the SAME functools.cache
@@ -607,7 +632,7 @@ ApplyOuter ==
 NextPackage ==
   /\ pc = "nextpkg"
   /\ pc' = "apply" /\ processed' = FreshProcessed
-  /\ UNCHANGED <<chain, open, wf, py, members, glabels, cache, k, tid, tags, dom, load, hist, layout>>
+  /\ UNCHANGED <<chain, open, wf, py, members, glabels, cache, k, tid, tags, dom, load, hist, layout, expanded>>
 
 \* ---- a history of loads ----------------------------------------------------------------------------
 \* The module is loaded again while the extension instances live on: loader.load(...) once more on the same
@@ -627,10 +652,11 @@ LoadAgain ==
   /\ glabels' = [i \in 1..N |-> IF chain[i].hdr.dc THEN {"dataclass"} ELSE {}]
   /\ cache' = [i \in 1..N |-> [set |-> FALSE, val |-> <<>>]]
   /\ processed' = FreshProcessed
-  /\ load' = load + 1 /\ k' = FirstK /\ pc' = "apply"
+  /\ load' = load + 1 /\ k' = FirstK /\ expanded' = FALSE
+  /\ pc' = IF split > 0 /\ link = "wildcard" THEN "postload" ELSE "apply"
   /\ UNCHANGED <<chain, open, wf, py, tid, tags, dom, layout>>
 
-Next == DefClass \/ DefField \/ EndClass \/ EndModule \/ ApplyRecursively \/ ApplyOuter \/ NextPackage \/ LoadAgain
+Next == DefClass \/ DefField \/ EndClass \/ EndModule \/ ApplyRecursively \/ ApplyOuter \/ NextPackage \/ ExpandWildcards \/ LoadAgain
 Spec == Init /\ [][Next]_vars
 
 \* ---------------------------------------------------------------------------------------------
@@ -675,7 +701,7 @@ EncRes(r) == [own |-> r.own, params |-> Enc(r.params), dataclass |-> r.dataclass
 CaseRec ==
   [chain |-> [i \in 1..N |-> [hdr |-> chain[i].hdr, base |-> chain[i].base,
                               fields |-> [j \in 1..Len(chain[i].fields) |-> <<chain[i].fields[j].name, chain[i].fields[j].form>>]]],
-   dom |-> dom, tid |-> tid, wf |-> wf, tags |-> tags, loads |-> load, outer |-> outer, split |-> split,
+   dom |-> dom, tid |-> tid, wf |-> wf, tags |-> tags, loads |-> load, outer |-> outer, split |-> split, link |-> link,
    hist |-> [l \in 1..Len(hist) |-> [impl |-> [i \in 1..N |-> EncRes(hist[l].impl[i])], mem |-> hist[l].mem]],
    impl |-> [i \in 1..N |-> EncRes(ImplRes(i))],
    ref |-> [i \in 1..N |-> EncRes(PyRes(i))],
